@@ -18,7 +18,7 @@ Every case is a JSON-serialisable dict; run_case(case) reproduces it alone.
 """
 import itertools
 import signal
-import time
+import warnings
 from collections import Counter
 from fractions import Fraction
 
@@ -127,7 +127,8 @@ def _key(case):
 
 def _catching(fn, case, seconds=30):
     try:
-        with _guard(seconds):
+        with _guard(seconds), warnings.catch_warnings(), numpy.errstate(all="ignore"):
+            warnings.simplefilter("ignore")
             return fn(case)
     except _Timeout as e:
         return True, "timeout: %s" % e, _generic_cls(case, "timeout"), "noraise"
@@ -168,9 +169,35 @@ def _sus_labels(n, akind):
     return numpy.array([7 * i + 3 for i in range(n)], dtype="int64")
 
 
-def _sus_input_class(case, p, k):
-    """class of the INPUT (not of the outcome) for the two float-edge situations
-    of the unchanged library; only diagnostic, never part of the oracle"""
+def _sus_near_boundary(case, k):
+    """(some pointer near a boundary, last pointer near the total) for the
+    real-arithmetic pointers (u+i)*T/k, u=j/2^53, against the cumulative sums of
+    the weights taken in descending order; 'near' = within T*2^-42, i.e. within
+    the accumulated rounding of a float64 cumulative sum / pointer ladder.
+    Diagnostic only (names the class of the input), never part of the oracle."""
+    import bisect
+    w = sorted((Fraction(x) for x in numpy.array(case["p"], dtype=case.get("pdtype", "float64")).tolist()),
+               reverse=True)
+    cum, t = [], Fraction(0)
+    for x in w:
+        t += x
+        cum.append(t)
+    tol = t / 2 ** 42
+    u = Fraction(int(case["rng"]["j"]), TWO53)
+    near = False
+    for i in range(k):
+        ptr = (u + i) * t / k
+        m = bisect.bisect_left(cum, ptr)
+        for mm in (m - 1, m):
+            if 0 <= mm < len(cum) and abs(cum[mm] - ptr) <= tol:
+                near = True
+    top = abs(t - (u + k - 1) * t / k) <= tol
+    return near, top
+
+
+def _sus_input_class(case, p, k, exc=None):
+    """class of the INPUT for the float-edge situations of the unchanged
+    library; only diagnostic (computed after a failure), never part of the oracle"""
     spec = case["rng"]
     if k == 0:
         return "sus-zero-draws-division"
@@ -187,8 +214,15 @@ def _sus_input_class(case, p, k):
             npt = -1
     if npt != k:
         return "sus-arange-pointer-count"
+    near, top = _sus_near_boundary(case, k)
+    if exc is not None:
+        if isinstance(exc, IndexError) and top:
+            return "sus-pointer-past-cumsum"
+        return None
     if j == 0:
         return "sus-offset-zero-double-count"
+    if near:
+        return "sus-pointer-rounds-across-boundary"
     return None
 
 
@@ -198,21 +232,19 @@ def _exception_cls(case, e):
         try:
             p = numpy.array(case["p"], dtype=case.get("pdtype", "float64"))
             k = _nelem(_size_shape(case["size"]))
-            c = _sus_input_class(case, p, k)
+            c = _sus_input_class(case, p, k, exc=e)
         except Exception:
             c = None
-        if c in ("sus-arange-pointer-count", "sus-zero-draws-division"):
-            return c
-        if isinstance(e, IndexError) and case["rng"]["kind"] == "scripted":
-            return "sus-pointer-past-cumsum"
-        return "sus-exception"
+        return c if c is not None else "sus-exception"
     if fn == "tiled":
         if _size_arg(case["size"]) == ():
             return "tiled-choice-scalar-shape-float-prod"
         return "tiled-exception"
     if fn == "axis":
-        if _axis_all(case):
+        if _axis_all(case) and not _axis_negative(case):
             return "axis-shuffle-all-axes-scalar-slice"
+        if _axis_negative(case):
+            return "axis-shuffle-negative-axis-ignored"
         return "axis-exception"
     if fn == "outcross":
         return "outcross-exception"
@@ -228,11 +260,11 @@ def run_sus(case):
     shape = _size_shape(case["size"])
     k = _nelem(shape)
     p0, a0 = p.copy(), a.copy()
-    icls = _sus_input_class(case, p, k)
 
     out = stochastic_universal_sampling(a, p, size, _mk_rng(case["rng"]))
 
     def cls(generic):
+        icls = _sus_input_class(case, p0, k)
         return icls if icls is not None else generic
 
     # requested number of draws in the requested shape
@@ -319,8 +351,22 @@ def _fix_positive(rng, w):
     return w
 
 
+# fixed witnesses of the float-edge input classes (found by this ring; kept so that
+# every class is exercised whatever VERIF_SEED is)
+_SUS_WITNESSES = [
+    dict(fn="sus", p=[1.0, 1.0, 1.0], size=3, rng=dict(kind="scripted", j=0)),
+    dict(fn="sus", p=[1.0, 1.0, 1.0], size=3, rng=dict(kind="scripted", j=TWO53 - 1)),
+    dict(fn="sus", p=[1.0, 1.0], size=2, rng=dict(kind="scripted", j=1)),
+    dict(fn="sus", p=[3.0, 2.0, 0.0, 1.0, 1.0, 1.0], pdtype="int64", size=[12, 1], rng=dict(kind="scripted", j=2 ** 52)),
+    dict(fn="sus", p=[2.5, 0.3333333333333333, 2.5], size=[2], rng=dict(kind="scripted", j=TWO53 - 1)),
+    dict(fn="sus", p=[0.7, 0.3, 0.3, 0.3, 0.7, 0.7, 0.3], size=4, rng=dict(kind="scripted", j=TWO53 - 1)),
+]
+
+
 def gen_sus_scripted(rng, tier):
     thorough = tier == "thorough"
+    for case in _SUS_WITNESSES:
+        yield dict(case)
     # (1) exhaustive small scope: integer weights (exact ties, exact zeros), all k, edge offsets
     nmax, vmax, kmax = (4, 3, 7) if thorough else (3, 3, 5)
     for n in range(1, nmax + 1):
@@ -548,6 +594,10 @@ def _axis_all(case):
     return nd >= 1 and set(x % nd for x in _axis_tuple(case)) == set(range(nd))
 
 
+def _axis_negative(case):
+    return any(x < 0 for x in _axis_tuple(case))
+
+
 def _axis_build(case):
     shape = tuple(int(s) for s in case["shape"])
     n = _nelem(shape)
@@ -579,6 +629,8 @@ def run_axis(case):
     all_axes = _axis_all(case)
 
     def cls(generic):
+        if _axis_negative(case):
+            return "axis-shuffle-negative-axis-ignored"
         return "axis-shuffle-all-axes-scalar-slice" if all_axes else generic
 
     ret = axis_shuffle(a, axis_arg, _mk_rng(case["rng"]))
@@ -629,6 +681,13 @@ def gen_axis(rng, tier):
                     yield dict(fn="axis", shape=list(shape), axis=ax, layout=["C", "F", "view"][i % 3],
                                vals="distinct" if i % 4 else "dups", dtype="int64" if i % 5 else "float64",
                                rng=dict(kind=kinds[i % 3], seed=i))
+    # negative spellings of the axes (own branch: the unchanged library ignores them)
+    for nd in (1, 2, 3):
+        for r in range(1, nd + 1):
+            for axes in itertools.combinations(range(nd), r):
+                i += 1
+                yield dict(fn="axis", shape=[3, 2, 4][:nd], axis=[x - nd for x in axes], layout="C",
+                           vals="distinct", dtype="int64", rng=dict(kind=kinds[i % 3], seed=i))
     ncase = 6000 if thorough else 800
     for t in range(ncase):
         nd = rng.choice([2, 3, 4, 4])
@@ -761,10 +820,12 @@ def gen_outcross(rng, tier, layouts):
     # (2) exhaustive small tables: ncross x nparent over nval values
     scopes = [(2, 2, 3), (3, 2, 3), (2, 3, 3), (2, 4, 2)]
     if thorough:
-        scopes += [(4, 2, 3), (3, 3, 3), (2, 4, 3), (2, 3, 4)]
+        scopes += [(4, 2, 3), (2, 4, 3), (2, 3, 4), (3, 3, 3)]
     for ncross, nparent, nval in scopes:
         for flat in itertools.product(range(nval), repeat=ncross * nparent):
             i += 1
+            if (ncross, nparent, nval) == (3, 3, 3) and i % 5:      # every 5th 3x3 table
+                continue
             rows = [flat[r * nparent:(r + 1) * nparent] for r in range(ncross)]
             yield _oc_case(rows, (ncross, nparent), layouts[i % len(layouts)], kinds[i % 2], i)
     # (3) random larger tables, the shape the selection configurations produce (tiled individuals)
@@ -804,7 +865,7 @@ def _oc_sample(case):
 @unit(P, "ring[outcross_shuffle multiset, monotone, local optimum]", "R", bounded=True,
       targets=[SAMPLING + ":outcross_shuffle"],
       note="bounded: C-contiguous tables; exhaustive 2x2,3x2,2x3 over 3 values and 2x4 over 2 values (thorough also "
-           "4x2,3x3,2x4 over 3 and 2x3 over 4); 500 (4000) random tables ncross<=5 (7), nparent in {2,3,4}, "
+           "4x2,2x4 over 3, 2x3 over 4 and every 5th 3x3 table over 3); 500 (4000) random tables ncross<=5 (7), nparent in {2,3,4}, "
            "int8/int32/int64; local optimality by brute force over all single exchanges")
 def u_ring_outcross(ctx):
     ctx.rule = ("cross tables as C-contiguous arrays (the layout every caller in the library passes); exhaustive "
